@@ -206,6 +206,10 @@ impl ArrayImpl {
     }
 
     pub fn div(&self, other: &Self) -> Result {
+        // the untyped NULL (`a / NULL`), as for the other arithmetic operators
+        if let (A::Null(a), _) | (_, A::Null(a)) = (self, other) {
+            return Ok(A::Null(a.clone()));
+        }
         let valid_rhs = other.get_valid_bitmap();
         let other = safen_dividend(other, valid_rhs).ok_or(ConvertError::NoBinaryOp(
             "div".into(),
@@ -218,6 +222,9 @@ impl ArrayImpl {
 
     /// `x % 0` is NULL, like `x / 0` (instead of panicking on the zero divisor).
     pub fn rem(&self, other: &Self) -> Result {
+        if let (A::Null(a), _) | (_, A::Null(a)) = (self, other) {
+            return Ok(A::Null(a.clone()));
+        }
         let valid_rhs = other.get_valid_bitmap();
         let other = safen_dividend(other, valid_rhs).ok_or(ConvertError::NoBinaryOp(
             "rem".into(),
